@@ -305,6 +305,13 @@ def gen_cases(tier, r):
             else:
                 n = r.randint(-10**9, 10**9) * r.choice([1, 1000])
             add({'k': 'add', 'tz': tz, 'args': args, 'n': n, 'nfloat': i % 2 == 0}, 'add-sub')
+    # --- host-supplied AWARE datetimes (another zone than the process zone): the getters read the normalised instant
+    n_aw = 120 if quick else 2500
+    for tz in ZONES:
+        for i in range(n_aw):
+            us = dt_to_us(datetime.datetime(r.randint(1900, 2100), r.randint(1, 12), r.randint(1, 28), r.choice([0, 0, 1, 12, 22, 23, 23]),
+                                            r.randint(0, 59), r.randint(0, 59))) + r.randrange(1000) * 1000
+            add({'k': 'aware', 'tz': tz, 'us': us, 'off': r.choice([-720, -600, -480, -300, -210, 0, 60, 330, 345, 540, 570, 765, 840])}, 'aware-host')
     # --- parsing: valid texts in many spellings, field-level invalid texts, malformed stream
     texts = parse_texts(r, 700 if quick else 12000)
     for i, (text, tag) in enumerate(texts):
@@ -553,6 +560,10 @@ def run(tier):
                     t += f' && option_eqb Z.eqb (dt_sub_float {cZ(d_exp)} {cZ(rr[1]["dt"])}) (Some {cZ(rr[4])})'
                     t += f' && (dt_sub_ms {cZ(rr[1]["dt"])} {cZ(d_exp)} =? {cZ(rr[2])})%Z'
                 corr_terms.append((t, {'kind': 'add/sub', 'task': task, 'impl': rr}, 'add'))
+        elif k == 'aware':
+            rr = res.get('r')
+            if not (isinstance(rr, list) and len(rr) == 3 and rr[0] == res.get('local') and rr[1] == 0 and rr[2] == 0):
+                fail('getter-mismatch', task, expected={'getters': res.get('local'), 'rebuilt_minus_d': 0}, got=rr)
         elif k == 'parse':
             text = task['text']
             exp = ref_parse(text, task['tz'])
